@@ -105,7 +105,9 @@ class Ctx:
             wall_s=round(time.time() - self.t0, 2),
             violations=len(new),
         )
-        if self.replay is None:
+        if self.replay is None and os.path.realpath(REPO) != "/repo":
+            self.log("AU_REPO=%s is not /repo: evidence file left untouched" % REPO)
+        elif self.replay is None:
             os.makedirs(os.path.join(VERIF, "evidence"), exist_ok=True)
             tmp = os.path.join(VERIF, "evidence", ".%s.json.tmp" % self.prop)
             with open(tmp, "w") as f:
@@ -145,8 +147,12 @@ def run_check(prop, level, body, argv=None):
     seed = a.seed if a.seed is not None else int(os.environ.get("VERIF_SEED", "20260926") or 0)
     ctx = Ctx(prop, a.tier, seed, level, replay=a.replay)
     try:
-        body(ctx)
-        rc = ctx.finish()
+        if a.replay:
+            from . import replay as _replay
+            rc = _replay.replay(ctx, a.replay)
+        else:
+            body(ctx)
+            rc = ctx.finish()
     except AnalysisBroken as e:
         print("ANALYSIS-BROKEN property=%s %s" % (prop, e))
         rc = 2
